@@ -523,3 +523,6 @@ def run(ck: Check, repo: Repo) -> None:
         return
     rule_sandwich(ck, repo, tr, qual, fn)
     rule_attribution(ck, repo)
+    # 'an annotation applies to a file exactly when one of its globs matches': the nested lookup asks every REUSE.toml
+    from . import c04
+    c04.rule_relevant_items(ck, repo, "R5")
